@@ -146,6 +146,18 @@ theorem C16_meta_reader_delivers_decode (src : Src) (ns : List Nat) :
       ∃ d, decode src.avail = .ok d ∧ d.final = .fnil) :=
   Compress.Proofs.MetaRApi.delivers_decode src ns
 
+/-- **Totality.** Over a source that does not fail and whose input the codec accepts
+    (`decode data = .ok d`), EVERY schedule of more than `d.payload.length` Reads with non-empty
+    buffers (of any lengths) ends with io.EOF, having delivered exactly `d.payload`, with
+    FinalMode, InputOffset and NumBlocks those of `decode` and the rest of the input untouched
+    (a Read with a non-empty buffer never returns (0, nil)). -/
+theorem C16_meta_reader_total (data : List UInt8) (d : Decoded) (hd : decode data = .ok d) (ns : List Nat)
+    (hpos : ∀ n ∈ ns, 0 < n) (hlen : d.payload.length < ns.length) :
+    let r := MR.run (newMR { data := data }) (ns.map .read)
+    r.1.err = some .eof ∧ dataOf r.2 = d.payload ∧ r.1.finalMode = d.final ∧ r.1.inOff = d.consumed ∧
+    r.1.nblk = d.blocks ∧ r.1.rest = (Bits.ofBytes data).drop (8 * d.consumed) :=
+  Compress.Proofs.MetaRApi.reads_total data d hd ns hpos hlen
+
 /-- **Writer to Reader.** What the encoder writes for any payload and final mode, read back
     through the Reader object with any Read schedule: never an error other than io.EOF, and
     at io.EOF the Reads have delivered the payload, FinalMode is the writer's, InputOffset is
